@@ -13,6 +13,7 @@ EXPLANATION = (
     "R6 multiply_frac rounds down. R7 fee split / proposer reward conserve MEL (C05.R2/R3). R8 subsidy and peg touch only the built-in pools and the fee pool; fee+ERG subsidy = the scheduled reward."
     " Imports C18.R1/R2/R5 (ERG enters circulation only through DoscMint, bounded by the reward formula against the speed of the previous block) and the activation table C06.R5."
     " R9 also decides the verdict of the gate itself (any sum overflowing ⇒ false, none ⇒ true; the fee is added to the MEL total). R10: no wrap-around arithmetic (wrapping_*) on amounts anywhere in the two state-machine crates. Imports C03.R5's inflator clause (microergs_per_dosc(h) is the table entry at h)."
+    ' Imports C16.R2 (the seeding of a built-in pool happens once: present ⇒ kept).'
 )
 NOT_DECIDED = ["the conservation inequality itself over sequences of blocks", "PoolState::{swap_many,deposit,withdraw} arithmetic (trusted base)",
                "order-dependent insert/remove interleaving is reported under C03.R2; pool-side mix-ups under C15"]
@@ -229,6 +230,11 @@ def r5_issuance_confinement(ctx):
                     ok = any(b.nname.endswith(a) for a in ("GenesisConfig::realize", "SealedState::from_block", "as std::clone::Clone>::clone"))
                 else:
                     ok = _owner(b, prog) in allowed
+                gone_f = sorted(a.split("::")[-1] for a in allowed if prog.body(a) is None)
+                if not ok and gone_f:
+                    # a fee stage no longer exists under its name (merged into its caller, renamed): this writer may simply be that stage
+                    r.undecided("%s/%s@%s" % (fld, k, b.nname.split("::")[-1]), "%s writes %s (%s) — but the fee stage(s) %s no longer exist under their names: whether this writer is one of them is not decided" % (b.nname, fld, k, gone_f), "%s:%s" % (b.file, b.line))
+                    continue
                 r.check(ok, "%s/%s@%s" % (fld, k, b.nname.split("::")[-1]), "%s %s in %s" % (fld, k, b.nname.split("::")[-1]), "%s writes %s (%s) outside the fee stages" % (b.nname, fld, k), "%s:%s" % (b.file, b.line))
     for callee, callers in STAGES.items():
         cb = prog.body(callee)
